@@ -661,6 +661,7 @@ def assign_persist(cases, tag, fmt):
     shutil.rmtree(root, ignore_errors=True)
     for i, c in enumerate(cases):
         f = fmt(i, c)
+        c["cfg"].pop("persist_cwd", None)
         if f is None:
             c["cfg"].pop("persist", None)
             continue
